@@ -49,7 +49,7 @@ CHECKS = {
                 note='Header blocks stay below the client\'s 64 KiB limit and chunk-size lines below its 256-byte limit (implementation limits, not part of the claim).'),
     'C10': dict(level='exploration', ref='4/C10',
                 technique='runtime monitoring under ASan+UBSan of the real crypto_dh.c with crypto_entropy_read substituted at link time (blinding chosen by the case); Python big-integer oracle pow(., 2^258+x, p) with p typed in from RFC 3526 and cross-checked against the RFC\'s pi formula',
-                text='Boundary sets for x, y and blinding; constructed peers giving every leading-zero count 1..256; sanity-check neighbours of p at every byte; two-party agreement; entropy failure at every position; plus seeded random (14k operations quick, 340k thorough).',
+                text='Boundary sets for x, y and blinding; constructed peers giving every leading-zero count 1..256; sanity-check neighbours of p at every byte; two-party agreement; entropy failure at every position; every operation also entered with stale entries on OpenSSL\'s error queue; overlapping arguments (peer value, private value and output at chosen offsets inside one block, incl. output == peer value) and sanitycheck -> in-place compute -> sanitycheck sequences; plus seeded random (17k operations quick, 380k thorough).',
                 note='256-bit and 2048-bit values are sampled. For y >= p the documented interface has no precondition; the model is pow(y, e, p).'),
     'C11': dict(level='fault_enumeration', ref='4/C11',
                 technique='runtime monitoring: byte-for-byte comparison with an SP 800-90A 10.1.2 HMAC_DRBG model (validated on a CAVP vector) fed with the bytes the substituted OS entropy source handed out; one forked child per history; every entropy call failed in turn',
@@ -61,7 +61,7 @@ CHECKS = {
                 note='Random sampling. Allocation refusals are sampled (one refused attempt per operation, never in pool histories); exhaustive enumeration of failure points for fixed scenarios stays with C14. The +3 in the capacity bound is integer rounding (a 7-byte buffer may hold 1 byte).'),
     'C13': dict(level='exploration', ref='4/C13',
                 technique='runtime monitoring: live-element model; positions recorded only by the record-cookie callback; after every operation the peek hook walks the heap (membership, handle == position, parent <= child, getmin == model minimum); final drain sorted and equal to the model; timer queue judged through its public interface with old cookies; ASan+UBSan',
-                text='3,000 (quick) / 243,000 (thorough) histories; heaps of 0..3400 elements, create from 0..3000, four key ranges incl. many duplicates; five time modes with equal and distinct times.',
+                text='3,000 (quick) / 243,000 (thorough) histories; heaps of 0..3400 elements, create from 0..3000, four key ranges incl. many duplicates; every combination of position callback present/absent x user cookie NULL/non-NULL x init/create (the cookie handed to the callbacks must be the one given at construction; create\'s input array is scribbled and freed at once); tiny heaps held at 0..4 elements; five time modes with equal and distinct times.',
                 note='Random sampling. Heap-internal checks rely on the LIBCPERCIVA_VERIF peek hook.'),
     'C14': dict(level='fault_enumeration', ref='4/C14',
                 technique='runtime fault injection with monitors: tracking allocator with failpoints under the library (--wrap), one forked child per allocation attempt k (fails once / fails from k on), model-equality and registration monitors, refuse-everything during cannot-fail operations, empty-live-set check after all atexit handlers, ASan+UBSan, simulated kernel for the I/O scenarios',
@@ -69,7 +69,7 @@ CHECKS = {
                 note='Exhaustive over the fault points of the executed scenarios, not over all scenarios. libc-internal allocations are not injectable. A request that never calls back after an event-loop error is taken to have been torn down by the library; the exit-time live-set check verifies it.'),
     'C15': dict(level='exploration', ref='4/C15',
                 technique='runtime monitoring under ASan+UBSan (-O1 and -O0 builds) with every input in a heap block of exactly its size and every output in a block of exactly the contract\'s size; range checks on results; per-input CPU-time watchdog; getaddrinfo interposed; thorough adds libFuzzer (clang) and valgrind memcheck',
-                text='Every prefix of generated valid JSON objects and of ~110 broken documents; every position x {=, NUL, 0x80, 0xff, -, space} for the decoders; every length 0..40 and every truncation of serialised addresses; lines around the 1024/2048-byte file buffers; hostile argv; 350k inputs quick, 4.7M + 40M fuzz executions thorough.',
+                text='Every prefix of generated valid JSON objects and of ~110 broken documents; every position x {=, NUL, 0x80, 0xff, -, space} for the decoders; every length 0..40 and every truncation of serialised addresses; lines around the 1024/2048-byte file buffers; hostile argv, each vector also as a heap block of exactly argc pointers without a terminating NULL; every whitespace character and pair x sign x numeral for the number parsers; 350k inputs quick, 4.7M + 40M fuzz executions thorough.',
                 note='A generated sample of byte strings plus exhaustive truncation/position enumeration of that sample. libc internals are trusted. Host-name forms of sock_resolve are excluded.'),
     'C16': dict(level='exploration', ref='4/C16',
                 technique='runtime monitoring under ASan+UBSan: the real PARSENUM/PARSENUM_EX instantiations for 15 target types and humansize/humansize_parse compared (return code, errno, stored value) with an exact-arithmetic Python model of the documented language; humansize output compared with a brute-force table of every representable string',
@@ -81,15 +81,15 @@ CHECKS = {
                 note='Only numeric address strings are resolved. Non-canonical base-64 pad bits and trailing characters beyond 2*len hex digits may go either way.'),
     'C18': dict(level='exploration', ref='4/C18',
                 technique='runtime monitoring under ASan+UBSan: fourteen option tables compiled through the real GETOPT_* macros (incl. compact layouts with labels on the first / last / GETOPT_SWITCH line, fall-through into the default block, a 272-line table, a zero-slot and a one-slot table); the sequence of (label or returned option string, optarg, optind), the final optind and the number of warning lines compared with a Python model written from the getopt.h comment; every parse follows optreset after another, possibly abandoned, parse whose argv was freed; a sample repeated in fresh processes',
-                text='Exhaustive over per-table alphabets of 13-49 tokens for length <= 3 (full) and 4 (reduced) in quick, <= 4 (full) and 5 (reduced) in thorough; random vectors to length 8: 1.3M parses quick, 18M thorough.',
+                text='Exhaustive over per-table alphabets of 13-49 tokens for length <= 3 (full) and 4 (reduced) in quick, <= 4 (full) and 5 (reduced) in thorough; random vectors to length 8; vectors with uncounted words at argv[argc] (a longer command line cut at argc), argc == 0, the same vector re-parsed after optreset with a table of another size: 1.8M parses quick, 25M thorough.',
                 note='optarg compared only where a program can observe it; warnings are counted, their text is not compared; where the header is silent the model follows standard getopt. A GETOPT_OPT label falling through into a GETOPT_OPTARG label is outside the documented usage and not generated.'),
     'C19': dict(level='exploration', ref='4/C19',
                 technique='runtime monitoring under ASan+UBSan with time() interposed: all four aws_sign_* functions; signature, credential scope, content hash and query string re-derived from the returned timestamp by an independent Python SigV4 that reproduces the published AWS worked examples',
                 text='48k signatures quick, 1.9M thorough over ids/regions/buckets/services/ops/paths of 0..200 unreserved characters, printable-ASCII secrets, bodies absent/empty/1 B..100 KiB, the int expiry range, clock instants 1970..2100; over half the cases use a clock that ticks on every call at a day, leap-day or year boundary. The shards alternate between three builds of SHA-256 (SHA-NI, SSE2 only, portable C).',
                 note='Paths are absolute. The timestamp must be an instant the interposed clock returned, in UTC. Acceptance by the live AWS service is out of scope.'),
     'C20': dict(level='exploration', ref='4/C20',
-                technique='runtime monitoring of the real objects in -O2, -O1+ASan/UBSan and (thorough) -O2 -flto builds, with and without AES-NI: context bytes read back after every *_Final with the context at every legal alignment (heap and stack); direct sweep of insecure_memzero over every length x offset; a free-time hook (under malloc/free via --wrap, with an opt-in allocator mode handing out blocks that are 8 mod 16, and under OpenSSL via CRYPTO_set_mem_functions) searches every released block for independently derived secret images; allocation-fault enumeration of the DH operations (each OpenSSL allocation refused in turn)',
-                text='Every message length 0..300 (thorough 0..600) for 3 hashes and 3 HMACs, contexts on heap and stack at every legal placement (0/8 resp. 0/4/8/12 bytes past a 16-byte boundary); insecure_memzero on every length 0..130 (thorough 0..600) x offset 0..15 x heap/exact/stack; random AES keys expand/encrypt/free, each with 16-aligned and with 8-mod-16 blocks, key bytes searched in 8-byte windows; random AES-CTR scripts incl. init2 re-use; DH with random and extreme x and blinding, entropy failures, and every OpenSSL allocation of 48 (thorough 2400) triples per build refused once; eleven failing key-file shapes. Each case carries a positive control, else inconclusive.',
+                technique='runtime monitoring of the real objects in -O2, -O1+ASan/UBSan and (thorough) -O2 -flto builds, in four AES environments (AES-NI; compiled without it; compiled with it but the run-time detector answers absent; compiled with it but its self-test fails): context bytes read back after every *_Final with the context at every legal alignment (heap and stack); direct sweep of insecure_memzero over every length x offset; a free-time hook (under malloc/free via --wrap, with an opt-in allocator mode handing out blocks that are 8 mod 16, and under OpenSSL via CRYPTO_set_mem_functions) searches every released block for independently derived secret images; allocation-fault enumeration of the DH operations (each OpenSSL allocation refused in turn)',
+                text='Every message length 0..300 (thorough 0..600) for 3 hashes and 3 HMACs, contexts on heap and stack at every legal placement (0/8 resp. 0/4/8/12 bytes past a 16-byte boundary); insecure_memzero on every length 0..130 (thorough 0..600) x offset 0..15 x heap/exact/stack; random AES keys expand/encrypt/free, each with 16-aligned and with 8-mod-16 blocks, key bytes searched in 8-byte windows; random AES-CTR scripts incl. init2 re-use; DH with random and extreme x and blinding, entropy failures, and every OpenSSL allocation of 48 (thorough 2400) triples per build refused once; eleven key-file shapes x stdio faults around aws_readkeys (fopen fails, k-th fgets fails with ferror, read(2) error, fclose reports an error after closing). Each case carries a positive control, else inconclusive.',
                 note='Speaks only for the gcc builds that ran; quick omits -flto. Freed blocks are required to be free of secret bytes (>= 8-byte windows for AES keys and text, >= 16 otherwise), not to be all zero. DH fault enumeration is single-fault over the installed OpenSSL\'s allocation sites. Not observable and not claimed: contexts inside *_Buf helpers and PBKDF2, stack buffers, libc\'s stdio buffer.'),
 }
 
